@@ -285,5 +285,34 @@ def distribute (p : List Nat) (s : St K) : DSt K :=
 theorem rel_distribute (p : List Nat) (s : St K) (hs : ∀ v, (s.vec v).size = p.sum) : Rel p (distribute p s) s :=
   ⟨rfl, fun v => ⟨hs v, rfl⟩⟩
 
+/-! ### a non-trivial preconditioner satisfying `Setup.pd`: rank-local diagonal scaling (SPAI-0 / Jacobi as `apply`) -/
+
+theorem getD_vmul (a b : K) (x y z : Vec K) (i : Nat) (hi : i < x.size) :
+    (vmul a x y b z).getD i 0 = a * x.getD i 0 * y.getD i 0 + b * z.getD i 0 := by
+  unfold vmul
+  by_cases hb : b = 0
+  · rw [if_pos hb, getD_ofFn_lt _ _ _ hi, hb]; ring
+  · rw [if_neg hb, getD_ofFn_lt _ _ _ hi]
+
+theorem size_vmul (a b : K) (x y z : Vec K) : (vmul a x y b z).size = x.size := by
+  unfold vmul; split <;> simp
+
+/-- `relaxation::spai0::apply(A, rhs, x)`: `x = M .* rhs`, every rank using its own part of `M` -/
+theorem diag_precond_refines (M : Vec K) (p : List Nat) (hM : M.size = p.sum) (g : Vec K) (hg : g.size = p.sum) :
+    (List.range p.length).map (fun r => vmul 1 (vecPart M p r) ((splitVec g p).getD r #[]) 0 #[])
+      = splitVec (vmul 1 M g 0 #[]) p ∧ (vmul 1 M g 0 #[]).size = p.sum := by
+  refine ⟨?_, by rw [size_vmul, hM]⟩
+  unfold splitVec
+  apply List.map_congr_left
+  intro r hr
+  have hr' := List.mem_range.1 hr
+  rw [getD_map_range _ _ _ _ hr']
+  have hMs := vecPart_size M p r hr' (by rw [hM])
+  apply eq_vecPart _ _ p r hr' (by rw [size_vmul, hM]) (by rw [size_vmul, hMs])
+  intro i hi
+  rw [getD_vmul _ _ _ _ _ _ (by rw [hMs]; exact hi), getD_vmul _ _ _ _ _ _ (by rw [hM]; exact glob_lt p r i hr' hi),
+    part_getD M p r i hr' hM hi, part_getD g p r i hr' hg hi]
+  simp
+
 end
 end Amgcl.Lockstep
